@@ -46,8 +46,12 @@ def f32(x: float) -> float:
     return struct.unpack("<f", struct.pack("<f", x))[0]
 
 
+# (only float32-exact values: a field of kind float cannot give back 0.1 or 3.4028235e38, so the
+# round-trip checks must not hold them; doubles that are NOT float32-exact are exercised where the
+# encoding itself is compared with the reference - FLOAT_INEXACT, used by C16)
+FLOAT_ALPHA = [0.0, -0.0, 1.5, -1.5, f32(0.1), F32_MAX, F32_DENORM, math.inf, -math.inf, math.nan]
 # 3.4028235e38 is a double just ABOVE the largest float32 that still rounds to it
-FLOAT_ALPHA = [0.0, -0.0, 1.5, -1.5, f32(0.1), F32_MAX, 3.4028235e38, F32_DENORM, math.inf, -math.inf, math.nan]
+FLOAT_INEXACT = [0.1, 3.4028235e38, -3.4028235e38, 16777217.0]
 DOUBLE_ALPHA = [0.0, -0.0, 1.5, -1.5, 0.1, F32_MAX, 5e-324, 1.7976931348623157e308,
                 math.inf, -math.inf, math.nan]
 STRING_ALPHA = ["", "a", "é", "\U0001F600", "\x00", "x" * 128,
